@@ -357,14 +357,23 @@ def _writable_virtual(s, f):
     if e[0] == "ref" and len(e[1]) == 1:
         inner = _target_of(s, e[1][0])
         return inner
+    return _linear(s, e)
+
+
+def _linear(s, e):
+    """(target, a, b) with value(e) = a*target + b for expressions built from
+    one reference to a writable field, integer constants, + and - (nested to
+    any depth: the compiler inverts each level), else None."""
+    if e[0] == "ref" and len(e[1]) == 1:
+        return _target_of(s, e[1][0])
     if e[0] == "op" and e[1] in ("+", "-") and len(e[2]) == 2:
         x, y = e[2]
-        if x[0] == "ref" and len(x[1]) == 1 and y[0] == "num":
-            t = _target_of(s, x[1][0])
+        if y[0] == "num":
+            t = _linear(s, x)
             if t:
                 return (t[0], t[1], t[2] + (y[1] if e[1] == "+" else -y[1]))
-        if y[0] == "ref" and len(y[1]) == 1 and x[0] == "num":
-            t = _target_of(s, y[1][0])
+        if x[0] == "num":
+            t = _linear(s, y)
             if t:
                 if e[1] == "+":
                     return (t[0], t[1], t[2] + x[1])
